@@ -7,15 +7,18 @@ package flamego
 // http handler funcs, teapot) resolves exactly what the reflective path does.
 
 import (
+	"errors"
 	"io"
 	"net/http"
 	"net/url"
+	"reflect"
 
 	"github.com/flamego/flamego/internal/vx"
 )
 
 func init() {
 	vx.Register("VH_C04_request", VH_C04_request)
+	vx.Register("VH_C04_results", VH_C04_results)
 }
 
 type vScoped struct{ tag int }
@@ -128,4 +131,71 @@ func VH_C04_request() {
 	}
 	vx.PoolReuse(false)
 	vx.Observe("request", appHas, secondAsks, wrapKind, remap, p1, p2)
+}
+
+var vErrResult = errors.New("result")
+
+// VH_C04_results: what a handler returns reaches the ReturnHandler unchanged -
+// same number of values, same static kinds, same nil-ness - whether the handler
+// is called through the built-in automatic wrapping or through reflection.
+func VH_C04_results() {
+	kind := vx.Choice(4)
+	isNil := vx.Bool()
+	var err error
+	if !isNil {
+		err = vErrResult
+	}
+	describe := func(vals []reflect.Value) []int {
+		out := []int{len(vals)}
+		for _, v := range vals {
+			if !v.IsValid() {
+				out = append(out, -1)
+				continue
+			}
+			k := int(v.Kind())
+			out = append(out, k)
+			if v.Kind() == reflect.Interface || v.Kind() == reflect.Ptr {
+				if v.IsNil() {
+					out = append(out, 0)
+				} else {
+					out = append(out, 1)
+				}
+			}
+		}
+		return out
+	}
+	run := func(h Handler) []int {
+		var got []int
+		f := NewWithLogger(io.Discard)
+		f.Map(ReturnHandler(func(c Context, vals []reflect.Value) { got = describe(vals) }))
+		f.Get("/", h)
+		f.ServeHTTP(&vSpy{}, &http.Request{Method: "GET", URL: &url.URL{Path: "/"}, Header: http.Header{}})
+		return got
+	}
+	var direct, reflective Handler
+	switch kind {
+	case 0:
+		direct = func() error { return err }
+		reflective = func(*http.Request) error { return err }
+	case 1:
+		direct = func(Context) error { return err }
+		reflective = func(Context, *http.Request) error { return err }
+	case 2:
+		direct = func() (int, string) { return 7, "x" }
+		reflective = func(*http.Request) (int, string) { return 7, "x" }
+	case 3:
+		direct = func() (string, error) { return "x", err }
+		reflective = func(*http.Request) (string, error) { return "x", err }
+	}
+	a, b := run(direct), run(reflective)
+	same := len(a) == len(b) && len(a) > 0
+	if same {
+		for i := range a {
+			if a[i] != b[i] {
+				same = false
+			}
+		}
+	}
+	vx.Assert(same, "C04: a handler's results reach the return handler unchanged, identically through the built-in automatic wrapping and through reflection")
+	vx.Observe("results", kind, isNil, a)
 }
